@@ -657,7 +657,7 @@ var ptFixedFiles = []string{
 	"{msg desc=\"d\"}{plural $n}{case 'a'}one{default}x{/plural}{/msg}", "{msg desc=\"d\"}{plural $n}{case 1, 2}one{default}x{/plural}{/msg}",
 	"{msg desc=\"d\"}a{plural $n}{default}x{/plural}{/msg}", "{msg desc=\"d\"}{plural $n}{default}x{/plural}b{/msg}", "{msg desc=\"d\"}{plural $n}{default}x{default}y{case 2}{plural $m}{default}z{/plural}{/plural}{/msg}",
 	"{plural $n}{default}x{/plural}", "{msg desc=\"d\"}{plural $n}{default}x{/switch}{/msg}", "{msg desc=\"d\"}{plural $n} // c\n {case 0}z{default}x{/plural}{/msg}",
-	"{switch $x}{case 1}a{case 2, 'b'}c{default}d{/switch}", "{switch $x} {case 1}a {/switch}", "{switch $x}text{case 1}a{/switch}", "{switch $x}{case 1}a{/plural}", "{switch $x}{default,}{/switch}",
+	"{switch $x}{case 1}a{case 2, 'b'}c{default}d{/switch}", "{switch $x}{default}a{case 1}b{/switch}", "{switch $x}{default}a{default}b{/switch}", "{switch $x}{case 1}{default}{/switch}", "{switch $x} {case 1}a {/switch}", "{switch $x}text{case 1}a{/switch}", "{switch $x}{case 1}a{/plural}", "{switch $x}{default,}{/switch}",
 	"{switch $x}\n  // comment\n  {case 1}a\n  /* c */\n  {default}b\n{/switch}", "{switch $x}{if}{/switch}", "{switch $x}{{case 1}}a{/switch}", "{switch $x}{case 1 2}{/switch}", "{switch $x}",
 	"{if $a}1{elseif $b}2{elseif $c}3{else}4{/if}", "{if $a}1{else}2{else}3{/if}", "{if $a}1{else}2{elseif $b}3{/if}", "{if}x{/if}", "{if $a}x", "{if $a}{/foreach}",
 	"{foreach $i in $l}a{ifempty}b{/foreach}", "{foreach $i in $l}a{/for}", "{for $i in range(1, 5)}a{/for}", "{for $i in range(5)}a{ifempty}b{/foreach}", "{foreach $i of $l}{/foreach}", "{foreach i in $l}{/foreach}",
